@@ -726,8 +726,11 @@ LEVEL_NOTE = ("Refinement layer (Signac/Properties/Refinement.lean, audited with
               "ENOENT is not injected; init with force=True, reset, and a state-point change of a job without state-point "
               "file are outside crash_safe/fault_safe (the latter is modelled and compared, only 'an exception is raised' is "
               "proved); completeness of an UNDISTURBED clone is proved (clone_refines: the event-free copy yields state point and payload of the "
-              "source under the scan-order hypothesis), that of a clone that returned normally under an arbitrary schedule is "
-              "compared with the real code but not proved; 'validates' = "
+              "source under the scan-order hypothesis); and a run that RETURNS NORMALLY under any schedule is the event-free run, "
+              "hence did exactly what the abstract operation says (quiet_run_is_event_free for every program; "
+              "ok_means_done_any_schedule for init / move / clone under every schedule, ok_means_done_partial for re-key / "
+              "remove / clear when no ENOENT is injected - refuted without that proviso by concrete schedules: an ENOENT at the "
+              "first unlink makes remove() return normally with the job still there, remove_ok_but_not_done); 'validates' = "
               "hash equality (MD5 collision-freeness assumed); the oracle rule 'a failed directory rename leaves the source's "
               "state-point file as it was' is stricter than the literal property text (it is what the rollback anchor "
               "exists for). Trusted: Lean kernel, propext/Classical.choice/Quot.sound, harness/faultfs.py, the oracle.")
